@@ -851,3 +851,9 @@ def run(idx, rep, tier):
     rep.floor('C07.R12', 'shared rows', len(_kept), 1)
     for o in rep.obligations[_before:]:
         o.rule = 'C07.R12'
+    from .c02 import compression_renewed
+    rep.rule('C07.R13', 'compression contexts are renewed at every NEWKEYS (= C02.R13): a compressor kept across a re-key makes the first packet after it undecodable for the peer, the connection drops and every busy channel loses the rest of its stream')
+    compression_renewed(k, 'C07.R13')
+    from .shared import share
+    from .c20 import r6 as _c20r6
+    share(k, 'C07.R14', 'payload that follows a SOCKS request in the same segment is part of the stream (= C20.R6): the forwarder input buffer is only consumed from the front, never cleared', _c20r6)
